@@ -13,9 +13,37 @@ PROPS: dict[str, dict] = {
         "assumptions": ["expression semantics of DESIGN 3.1 (integer rows, two-valued logic)"],
         "explanation": "as_trivial / flatten_logical_and / logical_and / columns_required against the spec functions ev, fv",
     },
+    "C16": {
+        "modules": ["diagnostics"],
+        "assumptions": ["leaf relations declare truthful row bounds", "laws of tier L (spec/laws.py)"],
+        "explanation": "Diagnostics.run: doomed implies no rows; with a truthful executor doomed iff no rows; doomed verdicts carry a message",
+    },
     "C05": {
         "modules": ["op_slice"],
         "assumptions": [],
         "explanation": "Slice.then / simplify contracts: merged operation equals the two applied in sequence; merging never raises.",
     },
 }
+
+_COMMON_NOTE = ("Trusted: the VC generator pyvc and its stated Python semantics (DESIGN 2.2), z3, closed world (only classes defined in /repo; "
+                "trees built through the factories), partial correctness. ")
+
+PROPS["C06"].update(
+    level_text="Every applied_columns/applied_min_rows/applied_max_rows implementation, every min_rows/max_rows/columns property and the "
+               "is_join_identity/is_trivial flags are proved, for all inputs, against the truthfulness contract "
+               "(min_rows <= |rows| <= max_rows, columns == column set of rows) by z3 from the current source; induction over the tree via attribute contracts.",
+    level_note=_COMMON_NOTE + "Assumed: leaves truthful (the property's hypothesis); tier-L laws on lengths/column sets of the row operators (bounded-checked, not yet Lean-proved). "
+               "Consumers of the flags (execute short-cuts, Join elision, Processor pruning) are covered under C01/C07/C14 contracts as they are built.",
+)
+PROPS["C13"].update(
+    level_text="as_trivial of every predicate class, flatten_logical_and, Predicate.logical_and/logical_or and columns_required of every expression/predicate/container class "
+               "are proved against the spec functions ev (meaning on an arbitrary row) and fv (free columns) for all trees, with loop invariants over operand tuples.",
+    level_note=_COMMON_NOTE + "Assumed: expression semantics of DESIGN 3.1. The spec lemma 'ev depends only on fv' and Selection.__post_init__ are not yet covered.",
+)
+PROPS["C16"].update(
+    level_text="Diagnostics.run is proved (all 60 paths, recursion by contract) to doom only empty relations, to be exact with a truthful executor, and to attach a message to every doomed verdict; "
+               "is_empty_invariant of every operation class is proved sound.",
+    level_note=_COMMON_NOTE + "Assumed: truthful leaf bounds; tier-L laws; executor modelled as an uninterpreted boolean function of the relation.",
+)
+CLAIMED = {"C06", "C13", "C16"}
+NOT_CLAIMED: dict[str, str] = {}
